@@ -704,7 +704,7 @@ Init ==
 Next ==
   /\ st.s = "run"
   /\ \E ch \in 1..NChoices(Cur) :
-       LET n == IF steps >= MaxSteps THEN Halt(Cur, "stuck", "step limit", <<>>) ELSE Step(Cur, ch) IN
+       LET n == IF steps >= MaxSteps THEN Halt(Cur, "unsup", "step limit", <<>>) ELSE Step(Cur, ch) IN
        /\ stk' = n.stk /\ heap' = n.heap /\ out' = n.out /\ st' = n.st
   /\ steps' = steps + 1
   /\ UNCHANGED run
